@@ -871,8 +871,12 @@ fn mutation_case(ctx: &mut Ctx) {
     let bytes = node.to_vec();
     let how = rng.below(5);
     let x = rng.edgy_u64();
+    // how the wrapper reaches the mutation: 0 = as decoded (borrowed raw bytes), 1 = detached with
+    // to_owned(), 2 = a clone of the decoded wrapper, 3 = to_owned() then clone, 4 = clone then to_owned()
+    let prep = rng.below(5);
     ctx.rng = rng;
-    let replay = json!({"rule": "M", "bytes": hexs(&bytes), "nested": nested, "how": how, "x": x.to_string()});
+    ctx.count(&format!("mutation_prep_{prep}"));
+    let replay = json!({"rule": "M", "bytes": hexs(&bytes), "nested": nested, "how": how, "x": x.to_string(), "prep": prep});
     let mutate = |v: &mut Vec<u64>| match how {
         0 => v.push(x),
         1 => {
@@ -901,6 +905,16 @@ fn mutation_case(ctx: &mut Ctx) {
                 return Ok(None);
             }
             let stale_visible = xs[0].raw_cbor() != minicbor::to_vec(&*xs[0]).map_err(|e| e.to_string())?.as_slice();
+            if prep != 0 {
+                let e = xs.remove(0);
+                let e: KeepRaw<'_, Vec<u64>> = match prep {
+                    1 => e.to_owned(),
+                    2 => e.clone(),
+                    3 => e.to_owned().clone(),
+                    _ => e.clone().to_owned(),
+                };
+                xs.insert(0, e);
+            }
             mutate(xs[0].deref_mut());
             // expected: the element re-encodes from its content, the others keep their bytes
             let mut expect = vec![];
@@ -931,6 +945,13 @@ fn mutation_case(ctx: &mut Ctx) {
                 Err(_) => return Ok(None),
             };
             let stale_visible = k.raw_cbor() != minicbor::to_vec(&*k).map_err(|e| e.to_string())?.as_slice();
+            let mut k: KeepRaw<'_, Vec<u64>> = match prep {
+                0 => k,
+                1 => k.to_owned(),
+                2 => k.clone(),
+                3 => k.to_owned().clone(),
+                _ => k.clone().to_owned(),
+            };
             mutate(k.deref_mut());
             let expect = minicbor::to_vec(&*k).map_err(|e| e.to_string())?;
             let got = minicbor::to_vec(&k).map_err(|e| e.to_string())?;
